@@ -355,6 +355,18 @@ func init() {
 	intrinsicsByName["github.com/cosmos/cosmos-sdk/types.BigEndianToUint64"] = be2u
 	intrinsicsByName["(encoding/binary.bigEndian).Uint64"] = be2u
 
+	intrinsicsByName["(*github.com/tharsis/ethermint/x/evm/types.MsgEthereumTxResponse).Failed"] = func(e *Env, st *State, args []Val, rt types.Type, c *ssa.CallCommon) []Out {
+		p := e.asPointer(st, args[0], c.Pos())
+		r := e.load(st, p)
+		stt, _ := r.Typ.Underlying().(*types.Struct)
+		for i := 0; stt != nil && i < stt.NumFields(); i++ {
+			if stt.Field(i).Name() == "VmError" {
+				f := e.field(st, r, i)
+				return one(st, boolVal(tNot(tEq(e.lenOf(st, f), bvLit(0, 64)))))
+			}
+		}
+		return e.havocCall(st, "Failed", args, rt)
+	}
 	// ---- codec ----
 	const cdc = "(github.com/cosmos/cosmos-sdk/codec.BinaryCodec)."
 	intrinsicsByName[cdc+"MustMarshal"] = func(e *Env, st *State, args []Val, rt types.Type, c *ssa.CallCommon) []Out {
@@ -374,7 +386,7 @@ func init() {
 		er := e.D.fresh("uierr", sIface)
 		if target.K == kPtr {
 			cur := e.load(st, target.Ptr)
-			name := "spec_unmarshalIface_" + ifaceShortName(cur.Typ)
+			name := "spec_unmarshalIface"
 			bz := e.term(st, args[1])
 			u := e.D.uf(name, []string{sStr}, sIface, bz)
 			okf := e.D.uf(name+"_ok", []string{sStr}, sBool, bz)
@@ -388,7 +400,7 @@ func init() {
 		e.trusted["protobuf Any codec: MarshalInterface is deterministic and UnmarshalInterface(MarshalInterface(x)) == x"]++
 		x := args[1]
 		xt := e.term(st, x)
-		name := "spec_unmarshalIface_" + ifaceShortName(x.Typ)
+		name := "spec_unmarshalIface"
 		m := e.D.uf("marshalIface", []string{sIface}, sStr, xt)
 		u := e.D.uf(name, []string{sStr}, sIface, m)
 		okf := e.D.uf(name+"_ok", []string{sStr}, sBool, m)
@@ -424,8 +436,8 @@ func (e *Env) marshal(st *State, v Val) Val {
 	}
 	s := e.sortOfT(inner.Typ)
 	it := e.term(st, inner)
-	m := e.D.uf("pbmarshal_"+mangleSort(s), []string{s}, sStr, it)
-	u := e.D.uf("pbunmarshal_"+mangleSort(s), []string{sStr}, s, m)
+	m := e.D.uf("spec_pbmarshal_"+ifaceShortName(inner.Typ), []string{s}, sStr, it)
+	u := e.D.uf("spec_pbunmarshal_"+ifaceShortName(inner.Typ), []string{sStr}, s, m)
 	st.define(tEq(u, it))
 	st.define(tNot(tEq(m, "nilStr")))
 	return e.wrapTerm(bytesType, m)
@@ -443,7 +455,7 @@ func (e *Env) unmarshalInto(st *State, bz Val, target Val) {
 	}
 	cur := e.load(st, inner.Ptr)
 	s := e.sortOfT(cur.Typ)
-	u := e.D.uf("pbunmarshal_"+mangleSort(s), []string{sStr}, s, e.term(st, bz))
+	u := e.D.uf("spec_pbunmarshal_"+ifaceShortName(cur.Typ), []string{sStr}, s, e.term(st, bz))
 	e.store(st, inner.Ptr, e.wrapTerm(cur.Typ, u))
 }
 
